@@ -6,6 +6,7 @@ From Coq Require Import NArith ZArith List Bool.
 From Coq Require Import Floats.SpecFloat.
 From AJ Require Import Model.Base Model.FloatModel Model.Value Model.JsonParse Model.MsgPack.
 From AJ Require Import Proofs.MsgPackRT Spec.MsgPackSpec Proofs.MsgPackComplete.
+From AJ Require Import Model.MsgPackTypes Proofs.MsgPackTypesProofs.
 Local Open Scope Z_scope.
 
 Theorem C09_decodes_canonical : forall cf v L rest, mp_ok v -> (nesting v <= L)%nat ->
@@ -76,6 +77,23 @@ Example C09_wide_example : forall cf,
     {| mp_err := Ok; mp_doc := JObj [([0x61%N], JArr [JInt 5; JStr [0x62%N]])];
        mp_rd := {| m_rest := []; m_reads := 21 |} |}.
 Proof. exact wide_map_decodes. Qed.
+
+(* the typed accessors as<MsgPackBinary>() / as<MsgPackExtension>() recognise exactly the bin / ext encodings: whatever
+   raw bytes a value holds, a payload is returned only when they are header ++ payload of that family with the length the
+   header announces — in particular never for a truncated header (the defect repaired by commit 7246ee9) *)
+Theorem C09_binary_accessor_sound : forall r p, octets r -> mp_binary_of_raw r = Some p ->
+  exists h, r = h ++ p /\ BinHdr (Z.of_nat (length p)) h.
+Proof. exact binary_of_raw_sound. Qed.
+Print Assumptions C09_binary_accessor_sound.
+
+Theorem C09_extension_accessor_sound : forall r ty p, octets r -> mp_extension_of_raw r = Some (ty, p) ->
+  exists h, r = h ++ ty :: p /\ ExtHdr (Z.of_nat (length p)) h.
+Proof. exact extension_of_raw_sound. Qed.
+Print Assumptions C09_extension_accessor_sound.
+
+Example C09_truncated_ext_header_not_recognised :
+  mp_extension_of_raw [0xC9%N] = None /\ mp_extension_of_raw [0xC8; 0]%N = None /\ mp_extension_of_raw [0xC7%N] = None.
+Proof. repeat split; reflexivity. Qed.
 
 Example C09_example :   (* non-minimal widths: uint64 5, str32 "a", array32 — decoded all the same *)
   mp_doc (mp_run default_cfg None 10 [221; 0; 0; 0; 2; 207; 0; 0; 0; 0; 0; 0; 0; 5; 219; 0; 0; 0; 1; 97]%N)
